@@ -848,6 +848,31 @@ func c02StreamRelease(p *Prog, r *Report) {
 		fn := cs.Parent()
 		n++
 		arg := cs.Common().Args[len(cs.Common().Args)-1]
+		failedWrite := func(ct condTruth) bool {
+			bo, ok := ct.Cond.(*ssa.BinOp)
+			if !ok || (bo.Op != token.NEQ && bo.Op != token.EQL) {
+				return false
+			}
+			isNil := func(v ssa.Value) bool { c, ok := v.(*ssa.Const); return ok && c.Value == nil }
+			var other ssa.Value
+			switch {
+			case isNil(bo.Y):
+				other = bo.X
+			case isNil(bo.X):
+				other = bo.Y
+			default:
+				return false
+			}
+			if (bo.Op == token.NEQ) != ct.Truth {
+				return false
+			}
+			for _, o := range origins(other) {
+				if c, ok := o.(*ssa.Call); ok && isConnWrite(c) {
+					return true
+				}
+			}
+			return false
+		}
 		why := ""
 		switch {
 		case rootFn(fn) == pr.closing || rootFn(fn) == pr.rangeFn || func() bool {
@@ -872,33 +897,27 @@ func c02StreamRelease(p *Prog, r *Report) {
 			return c.Common().StaticCallee() == pr.register || c.Common().StaticCallee() == pr.store
 		}):
 			// the registering function: only under a failed write
-			if guardHolds(p, cs.Block(), func(ct condTruth) bool {
-				bo, ok := ct.Cond.(*ssa.BinOp)
-				if !ok || (bo.Op != token.NEQ && bo.Op != token.EQL) {
-					return false
-				}
-				isNil := func(v ssa.Value) bool { c, ok := v.(*ssa.Const); return ok && c.Value == nil }
-				var other ssa.Value
-				switch {
-				case isNil(bo.Y):
-					other = bo.X
-				case isNil(bo.X):
-					other = bo.Y
-				default:
-					return false
-				}
-				if (bo.Op == token.NEQ) != ct.Truth {
-					return false
-				}
-				for _, o := range origins(other) {
-					if c, ok := o.(*ssa.Call); ok && isConnWrite(c) {
-						return true
-					}
-				}
-				return false
-			}, 1) {
+			if guardHolds(p, cs.Block(), failedWrite, 1) {
 				why = "the write of this registration failed"
 			}
+		case func() bool {
+			// a private helper of the registering function(s), called only under a failed write
+			hsites, only := p.staticCallSites(fn)
+			if !only || len(hsites) == 0 || fn.Parent() != nil {
+				return false
+			}
+			for _, site := range hsites {
+				caller := site.Parent()
+				registers := callsDirectly(caller, func(c ssa.CallInstruction) bool {
+					return c.Common().StaticCallee() == pr.register || c.Common().StaticCallee() == pr.store
+				})
+				if !registers || !guardHolds(p, site.Block(), failedWrite, 1) {
+					return false
+				}
+			}
+			return true
+		}():
+			why = "the write of this registration failed (helper called only under a failed write by the registering function)"
 		}
 		key := fmt.Sprintf("release@%s", strings.TrimPrefix(fn.String(), modPath+"/"))
 		r.check(why != "", rule, key, p.Pos(cs.Pos()), why, "the pending entry (and its stream id) is released here although an answer carrying that id may still arrive on this connection: the id is handed to a later request, which then receives the old answer")
